@@ -1,4 +1,45 @@
 T = "GeomV.C14."
+
+# ---- pin of the external clipper: the model's transcription of clipper.compute's two trivial-case
+# tests (lean/GeomV/C01/Model.lean `construct`) is valid for exactly this source.
+import hashlib, os, re, subprocess
+POLYCLIP = "github.com/ctessum/polyclip-go"
+POLYCLIP_VERSION = "v1.1.0"
+POLYCLIP_H1 = "h1:TGMfwMynNykXwCZCxI+CHdjo/ZE9JThup/gmrgigGEE="
+POLYCLIP_FILES = {
+    "clipper.go": "58a5302a1b9ed2682a48c4974c2467e31691f7bc4d12f0e0d09d7834f4ec4248",
+    "geom.go": "8c6b749c2ccc251e30ebb40baab5d866343500beecf65f0255ba4f8cf869bcad",
+    "connector.go": "a2d4a6c0e589b894db141c804ea2ef449a413b9e6c2f05f44a837f4f51f7c77a",
+}
+
+
+def pin_polyclip(check):
+    import vcheck
+    repo = vcheck.REPO
+    try:
+        mod = open(os.path.join(repo, "go.mod")).read()
+        m = re.search(r"^\s*(?:require\s+)?%s\s+(\S+)" % re.escape(POLYCLIP), mod, flags=re.M)
+        if not m or m.group(1) != POLYCLIP_VERSION:
+            check.broken.append("go.mod requires %s %s; the trivial-case tables of the model were transcribed from %s"
+                                % (POLYCLIP, m.group(1) if m else "?", POLYCLIP_VERSION))
+            return
+        rep = re.search(r"^\s*replace\s+%s\b.*$" % re.escape(POLYCLIP), mod, flags=re.M)
+        if rep:
+            check.broken.append("go.mod replaces the clipper: " + rep.group(0).strip())
+            return
+        gs = open(os.path.join(repo, "go.sum")).read()
+        if ("%s %s %s" % (POLYCLIP, POLYCLIP_VERSION, POLYCLIP_H1)) not in gs:
+            check.broken.append("go.sum hash of %s %s differs from the pinned %s" % (POLYCLIP, POLYCLIP_VERSION, POLYCLIP_H1))
+            return
+        cache = subprocess.run(["go", "env", "GOMODCACHE"], env=vcheck.GOENV, stdout=subprocess.PIPE, text=True).stdout.strip()
+        d = os.path.join(cache, POLYCLIP + "@" + POLYCLIP_VERSION)
+        for fn, want in POLYCLIP_FILES.items():
+            got = hashlib.sha256(open(os.path.join(d, fn), "rb").read()).hexdigest()
+            if got != want:
+                check.broken.append("module cache %s/%s differs from the transcribed source (sha256 %s)" % (d, fn, got[:16]))
+    except Exception as e:  # unreadable go.mod etc.: the tie cannot be established
+        check.broken.append("cannot establish the polyclip pin: %r" % e)
+
 CFG = {
     "id": "C14",
     "lean_modules": ["GeomV.C14.Proofs"],
@@ -20,6 +61,7 @@ CFG = {
             "against polygons with holes / multi-polygons / boxes at half-integer offsets (no line vertex on the boundary, no polygon vertex on the line: rejected by exact int64 tests); "
             "distinct = distinct input line; non-trivial = verdict class not '-outside-quantifier' (degenerate corpus receivers, compared with the model only)",
     "trivial_class": r"outside-quantifier$",
+    "pregen": pin_polyclip,
     "timeout": {"quick": 600, "thorough": 3000},
     "explanation": "partial: the glue and the trivial cases are proved for all inputs and the oracle is proved sound; the CLIPLINE sweep is exercised (compared with the oracle per case), not proved",
 }
